@@ -41,7 +41,7 @@ def l2_family(run_, exe, scns, judge, cls=None, compare=True, label="L2", **kw):
         d = judge(s, r)
         if d:
             bad.append((i, d, rep))
-        if compare:
+        if compare and not s.get("no_model"):
             mc, _, _ = l2.model_canon(ml)
             if mc != il:
                 rep2 = dict(rep, model=mc[:3000], impl_line=il[:3000])
